@@ -128,7 +128,7 @@ structure DebtOk (x : Option Nat) (d : Nat → Nat) (a : Sk) : Prop where
 
 /-- the caller holds a completion callback that has not been invoked and that no live object will invoke -/
 def Sk.OwnerFree (a : Sk) : Owner → Prop
-  | .probe => True
+  | .probe _ => True
   | .user tok => tok ∈ a.pendingToks ∧ (∀ p ∈ a.qKO, p.1 ∈ a.idx → p.2 ≠ .user tok) ∧
       (∀ c ∈ a.clients, c.tok ≠ tok)
   | .client id => a.Active id
